@@ -132,7 +132,7 @@ def prologue1 (rd : Bool) (core : Value → Res Value) (a : Value) : Res Value :
 /-- the unmarked core of each binary method -/
 def core2 : Op → Value → Value → Res Value
   | .equals => fun a b => equalsP a.ty a.v b.ty b.v
-  | .add => addU | .sub => subU | .mul => mulUC | .div => divU | .mod => modU
+  | .add => addU | .sub => subU | .mul => mulU | .div => divU | .mod => modU
   | .and => andU | .or => orU | .lt => lessThanU | .gt => greaterThanU
   | .index => indexU | .hasIndex => hasIndexU
   | .hasElement h => fun a b => hasElementU a b h
